@@ -127,7 +127,29 @@ def run_corpus(ctx, props, mode='plain'):
     for f in sorted(glob.glob(os.path.join(core.VERIF, 'corpus', 'engine', '*.json'))):
         c = json.load(open(f))
         ctx.count('engine', 'corpus')
-        run_one(ctx, c['program'], c['yaml'], c['oracle'], c['policy'], c['seed'], props, mode)
+        if c.get('ops'):
+            run_fixed(ctx, c['program'], c['yaml'], c['oracle'], c['policy'], c['seed'], props, c['ops'],
+                      c.get('mode', 'ops'), c.get('evict', False))
+        else:
+            run_one(ctx, c['program'], c['yaml'], c['oracle'], c['policy'], c['seed'], props, mode)
+
+
+def deterministic_class(prog):
+    """programs whose outcome the statement makes a function of definition/input/results:
+    no engine command racing live branches, no partial join (known finding), no failing guard"""
+    if partial_joins(prog):
+        return False
+    for t in prog['tasks']:
+        for cl in ('on_success', 'on_error', 'on_complete'):
+            for r in t.get(cl) or []:
+                if r['to'] in wfgen.ENGINE_CMDS:
+                    return False
+    d = prog.get('defaults') or {}
+    for cl in ('on_success', 'on_error', 'on_complete'):
+        for r in d.get(cl) or []:
+            if r['to'] in wfgen.ENGINE_CMDS:
+                return False
+    return True
 
 
 def run_chunk(ctx, n_programs, props, mode='plain', gen_kw=None):
@@ -141,7 +163,134 @@ def run_chunk(ctx, n_programs, props, mode='plain', gen_kw=None):
         table = wfgen.gen_oracle_table(rng, prog, p_err=0.08)
         policy = rng.choice(['random', 'random', 'fifo', 'lifo'])
         seed = rng.getrandbits(32)
-        run_one(ctx, prog, y, table, policy, seed, props, mode)
+        if mode == 'plain':
+            run_one(ctx, prog, y, table, policy, seed, props, mode)
+        else:
+            run_perturbed(ctx, prog, y, table, policy, seed, props, mode)
+
+
+def run_fixed(ctx, prog, y, table, policy, seed, props, ops, mode, evict=False):
+    """a recorded perturbed case (corpus / replay): same seed, same operator commands"""
+    import random
+    from harness.engine_driver import EngineWorld
+    w = EngineWorld(seed=seed)
+    tr = er.run_case(w, [y], 'wf', {}, er.Oracle(table), random.Random(seed), policy=policy, ops=ops, evict=evict)
+    extra = {'ops': ops, 'seed': seed, 'policy': policy, 'evict': evict, 'mode': mode}
+    for (p, kind, item) in eval_monitors(prog, tr, props):
+        sig = classify(p, kind, item, prog)
+        if kind == 'stuck':
+            sig = classify_stuck(prog, tr, item)
+        ctx.count('engine', 'hit:%s:%s' % (p, sig['kind']))
+        if p == ctx.prop:
+            ctx.violation('%s monitor %s: %s' % (p, kind, json.dumps(item, default=str)[:300]),
+                          replay_obj(prog, y, table, policy, w, tr, dict(extra, hit=item)), sig)
+    return tr
+
+
+def run_perturbed(ctx, prog, y, table, policy, seed, props, mode):
+    """reference run, then the same program with operator commands / another schedule"""
+    import random
+    from harness.engine_driver import EngineWorld
+    ref = run_one(ctx, prog, y, table, policy, seed, [], 'plain')
+    if ref is None:
+        return
+    rng = random.Random(seed + 1)
+    n = max(1, ref.steps)
+    ops = []
+    policy2, seed2, evict = policy, seed, False
+    if mode == 'pause':
+        k1 = rng.randint(0, n)
+        k2 = rng.choice([rng.randint(k1, n + 5), 10 ** 6])     # resume later, or only at quiescence
+        ops = [{'at': k1, 'op': 'pause'}, {'at': k2, 'op': 'resume'}]
+        if rng.random() < 0.25:
+            k3 = rng.randint(min(k2, n), n + 5)
+            ops += [{'at': k3, 'op': 'pause'}, {'at': 10 ** 6, 'op': 'resume'}]
+    elif mode == 'stop':
+        ops = [{'at': rng.randint(0, n), 'op': 'stop', 'state': rng.choice(['SUCCESS', 'ERROR', 'CANCELLED']),
+                'msg': 'stopped by harness'}]
+        if rng.random() < 0.3:
+            ops = [{'at': max(0, ops[0]['at'] - 1), 'op': 'pause'}] + ops
+    elif mode == 'ops':
+        for _ in range(rng.randint(1, 4)):
+            k = rng.randint(0, n + 3)
+            o = rng.choice(['pause', 'resume', 'resume', 'stop', 'rerun', 'skip', 'restart'])
+            d = {'at': k, 'op': o}
+            if o == 'stop':
+                d['state'] = rng.choice(['SUCCESS', 'ERROR', 'CANCELLED'])
+            if o == 'rerun':
+                d['reset'] = rng.choice([True, False])
+            ops.append(d)
+        ops.append({'at': 10 ** 6, 'op': 'resume'})
+    elif mode == 'paired':
+        policy2 = rng.choice(['random', 'fifo', 'lifo'])
+        seed2 = seed + 7
+        evict = rng.random() < 0.5
+        if rng.random() < 0.2:
+            ops = [{'at': rng.randint(0, n), 'op': 'restart'}]
+    w = EngineWorld(seed=seed2)
+    srng = random.Random(seed2)
+    tr = er.run_case(w, [y], 'wf', {}, er.Oracle(table), srng, policy=policy2, ops=ops, evict=evict)
+    ctx.count('engine', 'mode:' + mode)
+    for o in ops:
+        ctx.count('engine', 'op:' + o['op'] + (':' + o['state'] if o.get('state') else ''))
+    key = [y, table, policy2, seed2, ops, evict]
+    ctx.evaluated('engine', key, nontrivial=True)
+    extra = {'ops': ops, 'seed': seed2, 'policy': policy2, 'evict': evict, 'mode': mode}
+    hits = eval_monitors(prog, tr, props, extra={'paused_ok': False})
+    det = deterministic_class(prog)
+    # ---- mode-specific monitors
+    if mode == 'pause' and 'C10' in props:
+        for i, (desc, s) in enumerate(tr.events):
+            if desc[0] == 'op' and desc[1] == 'pause':
+                before = tr.events[i - 1][1]
+                for wb in before['wfs']:
+                    wa = [x for x in s['wfs'] if x['ord'] == wb['ord']]
+                    if wb['state'] == 'RUNNING' and wa and wa[0]['state'] != 'PAUSED':
+                        hits.append(('C10', 'pause_ack', {'wf': wb['ord'], 'after': wa[0]['state']}))
+        if det and not tr.exhausted and not ref.exhausted:
+            a, b = er.outcome(ref.final), er.outcome(tr.final)
+            if a != b:
+                hits.append(('C10', 'resume_same', {'unpaused': a, 'paused': b,
+                                                    'stuck': er.stuck(tr)[:1]}))
+    if mode == 'stop' and 'C11' in props:
+        for i, (desc, s) in enumerate(tr.events):
+            if desc[0] == 'op' and desc[1] == 'stop':
+                before = tr.events[i - 1][1]
+                wb, wa = before['wfs'][0], s['wfs'][0]
+                if wb['state'] in ('RUNNING', 'PAUSED') and wa['state'] != desc[2] and \
+                        not (wb['state'] == 'PAUSED' and desc[2] == 'SUCCESS'):
+                    hits.append(('C11', 'stop_state', {'before': wb['state'], 'requested': desc[2],
+                                                        'after': wa['state'], 'from': wb['state']}))
+    if mode == 'paired' and 'C02' in props and det and not tr.exhausted and not ref.exhausted:
+        a, b = er.outcome(ref.final), er.outcome(tr.final)
+        if a != b:
+            hits.append(('C02', 'paired', {'first': a, 'second': b, 'evict': evict}))
+    for (p, kind, item) in hits:
+        sig = classify(p, kind, item, prog)
+        if kind == 'stuck' and mode in ('pause', 'ops'):
+            sig = classify_stuck(prog, tr, item)
+        if kind == 'resume_same' and item.get('stuck'):
+            sig = classify_stuck(prog, tr, item['stuck'][0])
+        ctx.count('engine', 'hit:%s:%s' % (p, sig['kind']))
+        if p == ctx.prop:
+            ctx.violation('%s monitor %s: %s' % (p, kind, json.dumps(item, default=str)[:300]),
+                          replay_obj(prog, y, table, policy2, w, tr, dict(extra, hit=item)), sig)
+    return tr
+
+
+def classify_stuck(prog, tr, item):
+    """a RUNNING workflow at quiescence whose only unfinished tasks are WAITING joins created by a
+    resume (known finding A) is told apart from every other way of getting stuck"""
+    pend = [t for t in item.get('tasks', []) if t[1] not in er.COMPLETED]
+    names = {t['name']: t for t in prog['tasks']}
+    if pend and all(s == 'WAITING' and names.get(n, {}).get('join') is not None for n, s in pend):
+        # was the join created by a resume operation?
+        created_by = {}
+        for desc, before, t in er.creations(tr):
+            created_by[t['name']] = desc
+        if all(created_by.get(n, [''])[0] == 'op' and created_by[n][1] == 'resume' for n, s in pend):
+            return {'kind': 'join-created-on-resume-never-refreshed'}
+    return {'kind': 'stuck', 'wf_state': item.get('state')}
 
 
 def run_one(ctx, prog, y, table, policy, seed, props, mode='plain'):
